@@ -171,7 +171,7 @@ claim('C11',
       'DESIGN.md section 11.4 (as built) and section 5 C11 (plan)')
 claim('C10',
       'Bounded symbolic check of the real DS9 parser against reference semantics attached to a grammar of the supported subset: '
-      'generated files (optional unsupported frame, optional global line, noise, one region line in one of 8 frames x 10 shape forms x '
+      'generated files (optional unsupported frame, optional global line, noise, one region line in one of 8 frames x 12 shape forms x '
       'separator style x case x sign x property list, then a probe line that observes the surviving parser state); pixel coordinates and '
       'all sizes are symbolic numerals (any magnitude), sky positions in six concrete notations; plus literal files for the state rules '
       '(no frame, frame reset, composite, semicolons, sign persistence, text comments).',
